@@ -95,7 +95,8 @@ func (s *State) evalIndexAssigment(which ast.Node, index, value object.Object) o
 		return value
 	case object.MAP:
 		m := val.(object.Map)
-		m = m.Set(index, value)
+		// Never store a register as key: it keeps changing with the loop variable/parameter it belongs to.
+		m = m.Set(object.CopyRegister(index), value)
 		oerr := s.env.Set(id.Literal(), m)
 		if oerr.Type() == object.ERROR {
 			return oerr
